@@ -266,6 +266,18 @@ def pickNames : List String → Nat → List Nat → List String
 def namesAgree (prog : List String) (ids : List Nat) (names : Array String) : Bool :=
   pickNames prog 0 ids == names.toList
 
+/-! ## The summary `mayGrow` of functions outside the slice -/
+
+/-- Certificate check for the translator's summary: no call edge leaves the complement of `may` into `may`, the callees that
+    the slice treats as "no event" are outside `may`, and every function that writes the flag word is inside. -/
+def mayGrowOK (may : Nat → Bool) (edges : List (Nat × Nat)) (benign writers : List Nat) : Bool :=
+  edges.all (fun e => may e.1 || !may e.2) && benign.all (fun g => !may g) && writers.all may
+
+/-- `b` is reachable from `a` through the listed call edges -/
+inductive CallPath (edges : List (Nat × Nat)) : Nat → Nat → Prop
+  | refl (a) : CallPath edges a a
+  | step {a b c} : (a, b) ∈ edges → CallPath edges b c → CallPath edges a c
+
 /-! ## Side tables -/
 
 def tableEq (a b : List (String × Nat)) : Bool := a == b
